@@ -54,7 +54,7 @@ def cases(draw, rl):
     if rl:
         cfg["rl"] = {"alpha": -1, "eps": draw(st.sampled_from([0.0, 0.5])), "agent_seed": 3, "sched_seed": 4}
     return {"cfg": cfg, "n": draw(st.integers(1, 6)), "folder": (not rl) and draw(st.booleans()),
-            "base_exception": draw(st.sampled_from([False, False, True, "stop"])),
+            "base_exception": draw(st.sampled_from([False, False, True, "stop", "noargs"])),
             # RL only: an agent thread that is slow to get going (its environment takes a moment to reset) - the session may
             # be torn down before the agent has done anything
             "slow_agent_start": rl and draw(st.integers(0, 7)) == 0}
@@ -170,8 +170,11 @@ def check_faults(ctx: Ctx, case):
             b = batch_of[kind][idx]
             first_of_batch = idx == 0 or batch_of[kind][idx - 1] != b
             ctx.count(sub, one, b >= 1 and not first_of_batch, [f"fault-in-{kind}", "folder" if case["folder"] else "nofolder",
-                                                                {True: "BaseException", "stop": "StopIteration"}.get(case.get("base_exception"), "Exception")])
-            exc = {False: Marker, None: Marker, True: MarkerBase, "stop": MarkerStop}[case.get("base_exception")](f"{kind}#{idx}")
+                                                                {True: "BaseException", "stop": "StopIteration", "noargs": "Exception()"}.get(case.get("base_exception"), "Exception")])
+            if case.get("base_exception") == "noargs":
+                exc = Marker()       # `raise SomeError` without a message: args == ()
+            else:
+                exc = {False: Marker, None: Marker, True: MarkerBase, "stop": MarkerStop}[case.get("base_exception")](f"{kind}#{idx}")
             before = set(threading.enumerate())
             cal, _, _ = instrumented(cfg, f"{root}/f{fi}" if case["folder"] else None, (kind, idx, exc))
             raised = None
